@@ -141,6 +141,12 @@ func c04Run(c *Ctx) {
 		if n%5000 == 1 {
 			c.Sample(map[string]interface{}{"features": b.Feat, "call": cl, "docs": b.Docs})
 		}
+		if n%400 == 0 && len(c.Conform) < 30 && (o == "value" || o == "error") && cs.Spec != nil {
+			small := *cs
+			small.Docs, small.Feat = nil, nil
+			raw, _ := json.Marshal(small)
+			c.Conform = append(c.Conform, ConformRec{Case: raw, Obs: o})
+		}
 	}
 	mine := func(key string) bool {
 		return c.N <= 1 || int(fnvHash(key)%uint32(c.N)) == c.Shard
